@@ -683,6 +683,12 @@ def run_cases(ctx, profile, ncases, nops, oracle=None, nontrivial=None, modes=('
                 op = {'op': 'settle'}
                 ops.append(op)
                 impl.append(runner.do(op))
+            # state sweep through the public API: rooms() of every session id seen, on every namespace used
+            sweep = [(sid, ns) for sid in sorted(runner.names.rev) for ns in ('/', '/a', '/b')]
+            for sid, ns in sweep[:15]:
+                op = {'op': 'rooms', 'sid': sid, 'ns': ns}
+                ops.append(op)
+                impl.append(runner.do(op))
             if final_lose_all:
                 for t in list(sc.open):
                     op = {'op': 'lost', 't': t, 'reason': 'transport close'}
@@ -710,6 +716,9 @@ def run_cases(ctx, profile, ncases, nops, oracle=None, nontrivial=None, modes=('
         else:
             oracle_ = oracle
         fails = oracle_(cfg, trace, residue) if oracle_ else []
+        if fails and not div and all(sig and sig in ctx.known_hits for sig, _ in fails):
+            ctx.count('known_finding_cases')
+            fails = []          # already reported once in this run (shrunk); nothing new to learn
         if div or fails:
             case = {'mode': mode, 'coro': coro, 'cfg': cfg}
 
